@@ -489,13 +489,19 @@ impl Parser<'_, '_> {
         }
 
         if self.peek_is(Token::CurlyLeft) {
+            // Only look at the third token if the second is an identifier.
+            // Peeking lexes ahead in the normal mode, which must not happen
+            // for the contents of an f-string at the start of a block.
             let is_anonymous_record = matches!(
                 self.peek_many::<2>(),
                 Some([Token::CurlyLeft, Token::CurlyRight])
-            ) || matches!(
+            ) || (matches!(
+                self.peek_many::<2>(),
+                Some([Token::CurlyLeft, Token::Ident(_)])
+            ) && matches!(
                 self.peek_many::<3>(),
                 Some([Token::CurlyLeft, Token::Ident(_), Token::Colon])
-            );
+            ));
             if is_anonymous_record {
                 let key_values = self.record()?;
                 let span = self.spans.get(&key_values);
